@@ -110,16 +110,39 @@ Theorem C16_chosen_ctx_resolve : forall s j, reach s -> st s = Resolve -> res s 
 Proof. exact chosen_ctx_resolve. Qed.
 Print Assumptions C16_chosen_ctx_resolve.
 
+(* Clause 3, the order inside Close.  At the moment blobReader.Close calls the member reader's
+   Close the chosen member's context has not been cancelled (the reader is closed first, the
+   context cancelled second); the same holds for the member that was not chosen when its sender
+   closes its reader; and in no reachable state has a method of a member's reader (Close, or
+   Read / Descriptor through the returned reader) started on the open reader with the member's
+   context already cancelled under a live caller context (the ghost the readers' methods set
+   is never set). *)
+Theorem C16_chosen_ctx_live_at_close : forall s j, reach s -> cl s = Cl_inner -> res s = ROk j ->
+  own (sd j s) = false /\ dead j s = cctx s.
+Proof. exact chosen_ctx_live_at_close. Qed.
+Print Assumptions C16_chosen_ctx_live_at_close.
+
+Theorem C16_loser_ctx_live_at_close : forall s i, reach s -> pc (sd i s) = S_dclose ->
+  own (sd i s) = false /\ dead i s = cctx s.
+Proof. exact loser_ctx_live_at_close. Qed.
+Print Assumptions C16_loser_ctx_live_at_close.
+
+Theorem C16_never_cancelled_under_open_reader : forall s i, reach s -> early (sd i s) = false.
+Proof. exact never_cancelled_under_open_reader. Qed.
+Print Assumptions C16_never_cancelled_under_open_reader.
+
 (* ... and nothing the caller does with the returned reader short of closing it is a step of
    the protocol: Read (delivering bytes, io.EOF or an error) and Descriptor are possible from the
    return until Close and leave every context, reader and goroutine as they were - so
    C16_chosen_ctx_live and C16_chosen_reader cover a reader that has been read to the end (or
-   whose Read failed) but has not been closed. *)
-Theorem C16_use_is_neutral : forall s u s', estep (EUse u) s = Some s' -> s' = s.
+   whose Read failed) but has not been closed.  (The member reader's method looks at the context
+   of the call that opened it - touch_rd - and in a reachable state finds it as it should be,
+   hence the reach hypothesis.) *)
+Theorem C16_use_is_neutral : forall s u s', reach s -> estep (EUse u) s = Some s' -> s' = s.
 Proof. exact use_neutral. Qed.
 Print Assumptions C16_use_is_neutral.
 
-Theorem C16_use_enabled : forall s u, main s = M_returned -> st s = Blob ->
+Theorem C16_use_enabled : forall s u, reach s -> main s = M_returned -> st s = Blob ->
   (exists j, res s = ROk j) -> cl s = Cl_none -> estep (EUse u) s = Some s.
 Proof. exact use_enabled. Qed.
 Print Assumptions C16_use_enabled.
